@@ -139,7 +139,7 @@ class Buffer:
         numerator += obs.total_data_size
         return numerator / self.hot[b].total_capacity < self.threshold
 
-    def check_buffer_capacity(self, observation):
+    def check_buffer_capacity(self, observation, incoming=()):
         """
         Determines if there is capacity in both the Hot and Cold Buffers
 
@@ -147,6 +147,11 @@ class Buffer:
         ----------
         observation : topsim.core.telescope.Observation
             The observation intended to be added to the buffer
+
+        incoming : iterable of topsim.core.telescope.Observation
+            Observations that have already been accepted and are still
+            ingesting; the part of their data that has not arrived yet is
+            not free space.
 
         Returns
         -------
@@ -186,7 +191,11 @@ class Buffer:
                 f"{observation.name}, Observation: {size} vs Hot Buffer: {self.hot[b].total_capacity:.1f}"
             )
 
-        elif self.hot[b].current_capacity - size < 0 \
+        pending = sum(
+            o.ingest_data_rate * o.duration - o.total_data_size
+            for o in incoming
+        )
+        if self.hot[b].current_capacity - pending - size < 0 \
                 or not self.cold[b].has_capacity_for(size):
             return False
 
